@@ -235,6 +235,13 @@ def strata(tier, seed):
                     cs.append(dict(shape=[n] * d, ranks=rk, kind=kind, caps=[1, 2, 100, 1e12], seed=seed))
             for pos in itertools.product(range(n), repeat=d):
                 cs.append(dict(shape=[n] * d, ranks=[1] + [2] * (d - 1) + [1], kind='delta', pos=list(pos), caps=[1, 100], seed=seed))
+    for d, q in ((1, 4), (1, 5), (2, 4), (2, 5)):
+        n = 2 ** q
+        for rk in ([[1, 1]] if d == 1 else [[1, 1, 1], [1, 3, 1], [1, 7, 1]]):
+            for kind in ('gen', 'intA'):
+                cs.append(dict(shape=[n] * d, ranks=rk, kind=kind, caps=[2, 100, 1e12], seed=seed))
+        for pos in ([[0] * d, [n - 1] * d, [5] * d, [n // 2 + 1] + [3] * (d - 1)]):
+            cs.append(dict(shape=[n] * d, ranks=[1] + [2] * (d - 1) + [1], kind='delta', pos=pos, caps=[1, 100], seed=seed))
     yield Stratum('tt <-> qtt conversion', cs, 'conv', size=len(cs), chunk=8, bounds={'d': [1, 3], 'q': [1, 3]})
     al = [dict(shape=[2 ** q] * d, ranks=rk, kind='gen', depth=4, opts=[(1e-12, 100), (1e-8, 1e12)], seed=seed)
           for d in (1, 2, 3) for q in (1, 2, 3) if d * q <= 6 for rk in space.rank_profiles(d, [1, 3])]
